@@ -126,7 +126,6 @@ impl MT204 {
 
         verify_parser_complete(&parser)?;
 
-
         Ok(MT204 {
             transaction_reference,
             sum_of_amounts,
